@@ -54,7 +54,7 @@ void Plan::add(int task, int kind, int64_t a0, int64_t a1, int64_t a2, int64_t a
 
 // ------------------------------------------------------------------ shared state
 #define MAX_DEC (1 << 17)
-#define MAX_FAULT (1 << 13)
+#define MAX_FAULT (1 << 18)
 #define MAX_COUNTERS 192
 #define EV_RING 128
 
@@ -362,6 +362,11 @@ static void classify_crash(int status, const std::string &err, Result &r)
 		size_t q = 0, c;
 		while ((c = line.find(": ", q)) != std::string::npos) { parts.push_back(line.substr(q, c - q)); q = c + 2; }
 		if (parts.size() >= 3) func = parts[parts.size() - 1];
+		// glibc prints __PRETTY_FUNCTION__ ("type *name(args)"): keep the bare function name, as for sanitizer reports
+		size_t par = func.find('(');
+		if (par != std::string::npos) func.resize(par);
+		size_t cut = func.find_last_of(" *&");
+		if (cut != std::string::npos) func = func.substr(cut + 1);
 		size_t a2 = line.find("Assertion `");
 		snprintf(r.detail, sizeof r.detail, "%s", a2 != std::string::npos ? line.c_str() + a2 : line.c_str());
 	} else if (an != std::string::npos) {
